@@ -145,7 +145,7 @@ Definition op_tagged (hw : hwcfg) (code param : Z) (r : regs) (o : opid) : list 
          else [])
       else []) ++
      (match lut_index r with
-      | Some k => range_tseg SHRAM (hw_lut_addr hw + k * 256) (if fv_elem iv =? 2 then 2048 - k * 256 else 256) (o_lut o)
+      | Some k => range_tseg SHRAM (hw_lut_addr hw + k * 256) (lut_read_bytes (fv_elem ov) k) (o_lut o)
       | None => [] end),
      fm_tsegs ov (o_ofm o)).
 
